@@ -17,12 +17,13 @@ META = dict(
         quick="file name: ONE unbounded-length symbolic string (any directory part, any base name) per operation in "
               "{load_one, load_many, dump_one, dump_many}; explicit format in {None, each of the 25 module names, "
               "an unknown name}; input-writer selection for {gaussian, orca, unknown}; declared attribute names of "
-              "all modules (ground facts); glob->regex translation validated against fnmatch on concrete names",
+              "all modules (ground facts); glob->regex translation validated against fnmatch on concrete names; "
+              "guaranteed attributes: every object loaded by 23 layout-file harnesses (independent writers of C03; all explored paths) "
+              "has each attribute its module declares as guaranteed",
         thorough="same (the name space is already unbounded)"),
     outside=["os.path.basename is modelled by its documented contract (suffix after the last '/'); z3 does not "
              "prove the rfind-based implementation equal to it (unknown after 60 s)",
-             "'guaranteed' attributes of loaded objects are checked in the loading harnesses (C03/C13), "
-             "'required' enforcement before opening in C08"],
+             "'required' enforcement before the output file is opened is checked in C08 (required-attribute subsets, event traces)"],
     assumptions=["fnmatch replaced by a glob->SMT string atom translation (posix, case-sensitive), validated at start-up",
                  "regex constraints kept as SMT-LIB string atoms over (d, b, f=d++b); decided by cvc5 1.0 (z3 fallback), QF_SLIA"],
     explanation="symbolic execution of api._select_format_module/_select_input_module on a symbolic file name",
@@ -288,6 +289,36 @@ def h_declared(ctx, module="xyz"):
     ctx.oblige("module-has-patterns-list", isinstance(mod.PATTERNS, list), cls=module)
 
 
+def h_guaranteed(ctx, module="harness.c03", fn="h_gro", params=None, fmt="gromacs"):
+    """Every object a reader returns has all attributes its module declares as guaranteed (on every explored path of a
+    loading harness whose file comes from an independent layout writer)."""
+    import importlib
+    import iodata.api as api
+    from harness import c16
+    mod = api.FORMAT_MODULES[fmt]
+    loaded = []
+    real_one, real_many = api.load_one, api.load_many
+
+    def rec_one(*a, **k):
+        d = real_one(*a, **k)
+        loaded.append(("load_one", d))
+        return d
+
+    def rec_many(*a, **k):
+        for d in real_many(*a, **k):
+            loaded.append(("load_many", d))
+            yield d
+    api.load_one, api.load_many = rec_one, rec_many
+    try:
+        getattr(importlib.import_module(module), fn)(c16._Quiet(ctx), **(params or {}))
+    finally:
+        api.load_one, api.load_many = real_one, real_many
+    for op, d in loaded:
+        names = getattr(getattr(mod, op, None), "guaranteed", None) or []
+        for name in names:
+            ctx.oblige("guaranteed-attribute-is-set", getattr(d, name, None) is not None, cls=f"{fmt}.{op}:{name}")
+
+
 def h_glob_translation(ctx):
     """Validate the glob->regex model against fnmatch on concrete names (model validation, not the claim)."""
     import iodata.api as api
@@ -316,6 +347,25 @@ def jobs(tier):
                        validate=False))
     out.append(job("C17", "select-by-name[twin]", M, "h_select_name", dict(attr="load_one", twin=True),
                    expect="cex", budget_s=600, validate=False, stop_after_cex=1))
+    C3 = "harness.c03"
+    for fmt, fn, params in (
+            ("gromacs", "h_gro", dict(natom=2, nframes=2, vel=True, triclinic=True, time=True)),
+            ("gromacs", "h_gro", dict(natom=2, nframes=1, vel=False, triclinic=False, time=False)),
+            ("xyz", "h_xyz", dict(nframes=2, ext=False)), ("extxyz", "h_xyz", dict(nframes=2, ext=True)),
+            ("sdf", "h_sdf", dict(natom=3, nbond=2)), ("pdb", "h_pdb", dict(natom=3, big=False)), ("mol2", "h_mol2", dict(natom=3)),
+            ("poscar", "h_vasp", dict(kind="poscar", direct=True, selective=False)),
+            ("chgcar", "h_vasp", dict(kind="chgcar", direct=True, selective=False)),
+            ("locpot", "h_vasp", dict(kind="locpot", direct=False, selective=False)),
+            ("cube", "h_cube", dict(shape=[1, 2, 7])), ("charmm", "h_crd", dict(natom=2)), ("fcidump", "h_fcidump", dict(n=2)),
+            ("wfn", "h_wfn", dict(order="standard-p", nprim=1)), ("wfx", "h_wfx", dict(order="standard-p", nprim=1, extras=False)),
+            ("fchk", "h_fchk", dict(basis="sp", spin="restricted", props=False)), ("fchk", "h_fchk_trajectory", dict(kind="IRC", npoint=2)),
+            ("molden", "h_molden_layout", dict(fmt="molden", dkind="c", unit="AU", spin="restricted")),
+            ("molekel", "h_molden_layout", dict(fmt="molekel", dkind="p", unit="AU", spin="unrestricted")),
+            ("mwfn", "h_mwfn", dict(dtype=2, spin="restricted")), ("gamess", "h_gamess", dict(natom=2)),
+            ("gaussianinput", "h_gaussian_input", dict(natom=2, nlink0=1, nroute=1, ntitle=1)),
+            ("gaussianlog", "h_gaussian_log", dict(nbasis=6))):
+        out.append(job("C17", f"guaranteed[{fmt},{fn}]", M, "h_guaranteed", dict(module=C3, fn=fn, params=params, fmt=fmt), budget_s=300,
+                       max_validate=2, max_paths=300))
     out.append(job("C17", "input-select", M, "h_input_select", {}))
     out.append(job("C17", "glob-translation", M, "h_glob_translation", {}, validate=False))
     import iodata.api as api
